@@ -27,6 +27,20 @@ CHECKS.update({
    note="Trusted: TLC, Json module, harness rendering. Not judged (documentation silent, DECISION): a variable whose value starts with '/' or is empty at the start of a relative path (textual vs component-join semantics).",
    technique="TLA+ scanner state machine model-checked with TLC + TLC validation of implementation records per spawned environment"),
 })
+CHECKS.update({
+ "C07": dict(level=MC, ref="DESIGN.md 5/C07",
+   text="Handle.tla is a state machine of a read/seek handle (std::io::Cursor semantics) and of write/append handles with flush/drop; MC_Handle explores every operation sequence of the bound, including a drop after every prefix (crash points), against ReadNeverBeyond, SeekErrorKeepsPos, FlushMakesVisible, DropPersistsExactlyWritten, LikeCursor. The same sequences are executed on real Memfs and Stdfs handles (every call under catch_unwind) and TLC replays each logged sequence through the Handle operators step by step.",
+   note="Trusted: TLC, Json module, harness logging, tmpfs for the Stdfs sandbox. Offsets beyond +-10^6 are not exercised (TLC ints are 32 bit). Two handles open on one file are observed but only a panic is judged (outside the single-handle statement).",
+   technique="TLA+ handle state machine model-checked with TLC + TLC trace validation of real handle operation sequences (crash points = drop after every prefix)"),
+ "C18": dict(level=MC, ref="DESIGN.md 5/C18",
+   text="XdgEnv.tla gives every lookup as an operator over an environment (set of admissible outcomes where the documents are silent); MC_Xdg enumerates the environment cross-product as initial states, walks the config_dir search as a machine and checks precedence, order, no-empty-segment and getrids laws. The real functions run in hundreds of separately spawned, explicitly constructed environments (nothing inherited; verified inside the record) on Memfs and on a Stdfs sandbox, and TLC judges every record.",
+   note="Trusted: TLC, Json module, harness, tmpfs sandbox. DECISIONS (both readings admitted): XDG_*_HOME set to the empty string, relative values, HOME empty, PATH unset.",
+   technique="TLA+ operator spec + search machine model-checked with TLC; TLC validation of records from one process per environment"),
+ "C19": dict(level=MC, ref="DESIGN.md 5/C19",
+   text="CoreExt.tla defines slice/drop/first/single/... as sequence operators, take_while_p as a stepping machine and defer as a scope-stack machine over program shapes; MC_CoreExt / MC_Defer check their laws for all lengths 0..8 x indices -10..10, all strings of the bound and all control-flow shapes (depth <= 3; fall-through / return / panic). The real functions are run on the same domains (defer with real nested scopes, early return and unwinding) and TLC judges every record.",
+   note="Trusted: TLC, Json module, harness. slice with l < -len is outside the stated domain and skipped.",
+   technique="TLA+ operators and defer/take_while_p state machines model-checked with TLC + TLC validation of implementation records (exhaustive index/shape domains)"),
+})
 NOT_YET = {}
 
 def main():
